@@ -129,6 +129,16 @@ where
     }
 }
 
+impl<D, E> Drop for Reader<D, E> {
+    /// Tells the writer that the receiver is gone: later flushes fail and the queue is released.
+    fn drop(&mut self) {
+        let mut l = self.shared.lock().expect("not poisoned");
+        let _state = std::mem::replace(&mut l.state, SharedState::ReaderFused);
+        l.waker = None;
+        drop(l); // dropping the queued chunks might be slow; release lock first.
+    }
+}
+
 /// A `std::io::Write` implementation that makes a chunked hyper response body stream.
 /// Raw in the sense that it doesn't apply content encoding and isn't particularly user-friendly:
 /// unflushed data is ignored on drop.
